@@ -105,7 +105,7 @@ c_dump(void)
     json_decref(j);
 }
 
-const cmd_t cmds_b64[] = {
+static const cmd_t cmds_b64[] = {
     { "b64decbuf", c_decbuf },
     { "b64encbuf", c_encbuf },
     { "b64dec", c_dec },
@@ -114,3 +114,4 @@ const cmd_t cmds_b64[] = {
     { "b64dump", c_dump },
     { NULL, NULL }
 };
+REGISTER(cmds_b64)
